@@ -17,7 +17,8 @@ use std::time::Duration;
 #[derive(Clone, Debug, Serialize, Deserialize)]
 pub struct Early {
     /// 0: at start (before the first datagram); 1: after `ms` ms; 2: `ms` ms (scaled to 0..100)
-    /// before the twin's bootstrap completion; 3: right at completion; 4: `ms` ms after
+    /// before the twin's bootstrap completion; 3: right at completion; 4: `ms` ms after;
+    /// 5: at ms/3000 of (outage + 10 s), i.e. while the network is down or shortly after
     mode: u8,
     ms: u16,
     announce: bool,
@@ -33,6 +34,10 @@ pub struct Case {
     /// additional silent contacts (lengthen the bootstrap)
     silent: u8,
     lat: Vec<u16>,
+    /// the fresh node's traffic is lost during its first `outage_ms` ms (failed bootstrap
+    /// attempts, back-off, retry)
+    #[serde(default)]
+    outage_ms: u32,
     early: Vec<Early>,
     rt_seed: u64,
 }
@@ -72,16 +77,30 @@ impl Stage for EarlySearch {
         tier.pick(300, 5000)
     }
     fn strategy(&self, _t: Tier) -> BoxedStrategy<Case> {
-        let early = (prop_oneof![3 => Just(0u8), 2 => Just(1u8), 2 => Just(2u8), 1 => Just(3u8), 1 => Just(4u8)], 0u16..3000, any::<bool>())
+        let early = (prop_oneof![3 => Just(0u8), 2 => Just(1u8), 2 => Just(2u8), 1 => Just(3u8), 1 => Just(4u8), 3 => Just(5u8)], 0u16..3000, any::<bool>())
             .prop_map(|(mode, ms, announce)| Early { mode, ms, announce });
-        (any::<bool>(), vec(any::<u8>(), 3..=6), 1u8..=6, 0u8..4, vec(prop_oneof![Just(0u16), 0u16..50, 0u16..400], 1..32), vec(early, 1..=4), any::<u64>())
-            .prop_map(|(v6, net_ids, contacts, silent, lat, early, rt_seed)| Case { v6, net_ids, contacts, silent, lat, early, rt_seed })
+        (any::<bool>(), vec(any::<u8>(), 3..=6), 1u8..=6, 0u8..4, vec(prop_oneof![Just(0u16), 0u16..50, 0u16..400], 1..32), prop_oneof![3 => Just(0u32), 2 => 100u32..8_000, 1 => 8_000u32..40_000], vec(early, 1..=4), any::<u64>())
+            .prop_map(|(v6, net_ids, contacts, silent, lat, outage_ms, early, rt_seed)| Case { v6, net_ids, contacts, silent, lat, outage_ms, early, rt_seed })
             .boxed()
     }
     fn run(&self, c: &Case) -> Outcome {
         let rt = paused_rt(c.rt_seed);
         rt.block_on(async {
-            let net = SimNet::new(Box::new(LatencyTable { table: c.lat.clone() }));
+            // latency table + per-address blackout windows (address -> traffic lost until t)
+            let blocked: std::sync::Arc<std::sync::Mutex<std::collections::HashMap<SocketAddr, Duration>>> = Default::default();
+            let lat = LatencyTable { table: c.lat.clone() };
+            let b2 = blocked.clone();
+            let net = SimNet::new(Box::new(move |d: &Dgram| {
+                let b = b2.lock().unwrap();
+                for a in [d.from, d.to] {
+                    if let Some(until) = b.get(&a) {
+                        if d.now < *until {
+                            return Fate::Deliver(vec![]);
+                        }
+                    }
+                }
+                Fate::Deliver(vec![lat.delay(d)])
+            }));
             let m = c.net_ids.len();
             let addrs: Vec<SocketAddr> = (0..m).map(|i| fam_addr(c.v6, 10 + i as u16, 6881)).collect();
             // existing network: everybody knows everybody
@@ -108,6 +127,7 @@ impl Stage for EarlySearch {
             }
             let n_addr = fam_addr(c.v6, 500, 6881);
             let n2_addr = fam_addr(c.v6, 501, 6881);
+            blocked.lock().unwrap().insert(n2_addr, net.now() + Duration::from_millis(c.outage_ms as u64));
             let twin = start_node(&net, &NodeCfg { addr: n2_addr, id: mk_id(201, 0), read_only: false, nodes: contacts.clone(), routers: vec![], announce_port: None });
             let start = net.now();
             // learn the bootstrap duration from the twin (same contacts, same latency table)
@@ -129,6 +149,7 @@ impl Stage for EarlySearch {
             let clean = |s: &BTreeSet<SocketAddr>| -> BTreeSet<SocketAddr> { s.iter().filter(|a| **a != n_addr && **a != n2_addr).copied().collect() };
             let r_late = clean(&r_late);
 
+            blocked.lock().unwrap().insert(n_addr, net.now() + Duration::from_millis(c.outage_ms as u64));
             let n = start_node(&net, &NodeCfg { addr: n_addr, id: mk_id(200, 0), read_only: false, nodes: contacts.clone(), routers: vec![], announce_port: None });
             let n_start = net.now();
             let mut handles = vec![];
@@ -139,6 +160,7 @@ impl Stage for EarlySearch {
                     1 => e.ms as u64,
                     2 => boot_ms.saturating_sub(1 + e.ms as u64 % 100),
                     3 => boot_ms,
+                    5 => e.ms as u64 * (c.outage_ms as u64 + 10_000) / 3000,
                     _ => boot_ms + e.ms as u64,
                 };
                 if at_ms + 5 < boot_ms {
@@ -173,11 +195,11 @@ impl Stage for EarlySearch {
                     other => return Outcome::violation("early-announce-not-carried-out", format!("an early search with announce was issued, but a later search from another node yields {other:?} (expected it to contain {n_addr})")),
                 }
             }
-            Outcome::pass(strictly_early && !r_late.is_empty()).label(if strictly_early { "strictly-early" } else { "not-early" })
+            Outcome::pass(strictly_early && !r_late.is_empty()).label(if strictly_early { "strictly-early" } else { "not-early" }).label(if c.outage_ms > 0 { "initial-outage" } else { "no-outage" })
         })
     }
     fn rule(&self) -> String {
-        "a network of 3..6 real serving nodes (all know each other) in which one node has announced info-hash H; a fresh node N with 1..6 of them plus 0..3 silent addresses as contacts, per-datagram latencies from a generated table (0..400 ms); 1..4 searches for H issued on N at: start, shortly after, just before / at / after the bootstrap completion time learnt from an identically configured twin; with and without announce. Oracle (metamorphic): each early search yields the same address set as the twin's search issued right after bootstrapped(); an early announcing search makes N findable by a third node. Non-trivial: a search issued >5 ms before bootstrap completion and a non-empty late result".into()
+        "a network of 3..6 real serving nodes (all know each other) in which one node has announced info-hash H; a fresh node N with 1..6 of them plus 0..3 silent addresses as contacts, per-datagram latencies from a generated table (0..400 ms), optionally an initial outage of 0.1..40 s during which all of N's traffic is lost (failed attempts, back-off, retry); 1..4 searches for H issued on N at: start, shortly after, just before / at / after the bootstrap completion time learnt from an identically configured twin; or at a generated point of the outage/back-off window; with and without announce. Oracle (metamorphic): each early search yields the same address set as the twin's search issued right after bootstrapped(); an early announcing search makes N findable by a third node. Non-trivial: a search issued >5 ms before bootstrap completion and a non-empty late result".into()
     }
 }
 
